@@ -63,3 +63,11 @@ theorem allFrom_elim (P : Int → Prop) (lo : Int) (n : Nat) (h : AllFrom P lo n
     · exact ih (lo + 1) h.2 k (by omega) (by omega)
 
 end TieA.Phy
+
+/- from `hk : max lo (min hi p) = k` (the translation of `p.clamp(lo, hi)`): the same value written
+`p.max(lo).min(hi)` / `p.min(hi).max(lo)`, so that a clamp spelled differently is evaluated as well -/
+set_option hygiene false in
+macro "clamp_forms" hk:ident lo:term:max hi:term:max p:term:max : tactic => `(tactic| (
+  have hk2 : min (max $p $lo) $hi = max $lo (min $hi $p) := by omega
+  have hk3 : max (min $p $hi) $lo = max $lo (min $hi $p) := by omega
+  rw [$hk:ident] at hk2 hk3))
